@@ -6,7 +6,9 @@ import vlib
 def run(chk):
     q = chk.quick
     plan = [("toy79", "mixed", 500 if q else 12000), ("toy31723", "mixed", 250 if q else 6000), ("toy7", "mixed", 150 if q else 3000),
-            ("toy79", "tamper", 300 if q else 8000)]
+            ("toy79", "tamper", 300 if q else 8000),
+            # altered second-phase commitments: on a 7-element group a mis-weighted or unabsorbed field changes the verdict of ~2/7 of the runs
+            ("toy7", "tamper2", 400 if q else 6000), ("toy79", "tamper2", 400 if q else 6000)]
     outcomes = collections.Counter()
     for i, (curve, kind, n) in enumerate(plan):
         # only the verifier's verdict is compared: the proof on the wire (honest, from a bad witness, or tampered) is an input
